@@ -12,6 +12,7 @@ op, so every random outcome is a separate transition.
 Search is level-synchronous so the first counterexample is a shortest one; levels are sharded
 over worker processes; the master de-duplicates on the canonical key.
 """
+import hashlib
 import importlib
 import random
 import time
@@ -23,6 +24,12 @@ def _expand_task(args):
   module, func, params, hist = args
   fn = _get_fn(module, func)
   return hist, fn(params, hist)
+
+
+def _h(key):
+  """Canonical state keys can be long; the visited set keeps a 96-bit digest of each (collisions are negligible at
+  10^7 states: ~10^-15)."""
+  return hashlib.blake2b(str(key).encode('utf-8'), digest_size=12).digest()
 
 
 class BfsResult(object):
@@ -55,7 +62,7 @@ def run_bfs(module, func, params, max_depth, pool, seed=0, max_states=None, dead
     chunk = max(1, min(8, len(tasks) // 64))
     for hist, out in pool.imap_unordered(_expand_task, tasks, chunksize=chunk):
       if not root_done:
-        seen[out['key']] = 0
+        seen[_h(out['key'])] = 0
         res.states += 1
         root_done = True
       for v in out.get('violations', ()):
@@ -71,7 +78,7 @@ def run_bfs(module, func, params, max_depth, pool, seed=0, max_states=None, dead
             vv = dict(v)
             vv.setdefault('history', hist + [ch['op']])
             res.violations.append(vv)
-        k = ch['key']
+        k = _h(ch['key'])
         if k not in seen:
           seen[k] = depth + 1
           res.states += 1
@@ -79,7 +86,7 @@ def run_bfs(module, func, params, max_depth, pool, seed=0, max_states=None, dead
           if depth + 1 <= max_depth and not ch.get('terminal'):
             nxt.append(hist + [ch['op']])
           if len(res.samples) < 3 and depth + 1 >= min(max_depth, 4):
-            res.samples.append({'history': hist + [ch['op']], 'key': str(k)[:300]})
+            res.samples.append({'history': hist + [ch['op']], 'key': str(ch['key'])[:300]})
     res.level_sizes.append(len(frontier))
     res.depth_completed = depth
     depth += 1
